@@ -69,13 +69,22 @@ class AsyncHTTP11Connection(AsyncConnectionInterface):
                 f"to {self._origin}"
             )
 
-        async with self._state_lock:
-            if self._state in (HTTPConnectionState.NEW, HTTPConnectionState.IDLE):
-                self._request_count += 1
-                self._state = HTTPConnectionState.ACTIVE
-                self._expire_at = None
-            else:
-                raise ConnectionNotAvailable()
+        try:
+            async with self._state_lock:
+                if self._state in (HTTPConnectionState.NEW, HTTPConnectionState.IDLE):
+                    self._request_count += 1
+                    self._state = HTTPConnectionState.ACTIVE
+                    self._expire_at = None
+                else:
+                    raise ConnectionNotAvailable()
+        except BaseException as exc:
+            if self._state == HTTPConnectionState.NEW:
+                # We were cancelled before making any use of a connection that
+                # nobody else can pick up. Close it, rather than leaving it in
+                # the pool in a state from which it can never be used or expire.
+                with AsyncShieldCancellation():
+                    await self.aclose()
+            raise exc
 
         try:
             kwargs = {"request": request}
